@@ -10,6 +10,7 @@ import (
 	t020 "github.com/containernetworking/cni/pkg/types/020"
 	cniipam "tkestack.io/galaxy/cni/ipam"
 
+	"verif.local/mc/coop"
 	"verif.local/mc/world"
 )
 
@@ -235,7 +236,15 @@ func init() {
 			for s := 0; s < 8; s++ {
 				jobs = append(jobs, c13Job(s, 8, tier))
 			}
+			for _, sc := range c13ConcurrentScenarios(tier) {
+				jobs = append(jobs, ExploreJob("C13", sc, oracleC13Concurrent))
+			}
 			return append(jobs, c13ReloadJob(tier))
 		}})
-	replayers["C13"] = replayDescOnly
+	replayers["C13"] = func(tier string, v coop.Violation) int {
+		if len(v.Choices) > 0 {
+			return replayExplore("C13", c13ConcurrentScenarios(tier), oracleC13Concurrent, v)
+		}
+		return replayDescOnly(tier, v)
+	}
 }
